@@ -412,7 +412,8 @@ def _staterror(ctx, rid, repo):
     rp = repo.func(rel, "required_parset")
     ctx.touch(rp)
     try:
-        out = Interp({"sigmas": [Poly.atom("s0"), Poly.atom("s1")], "fixed": [False, True]}, {}, {}).run(A.strip_docstring(rp.node.body))
+        # s0 stands for a very precisely known bin (relative MC uncertainty 1e-6), s1 for an ordinary one
+        out = Interp({"sigmas": [Poly.atom("s0"), Poly.atom("s1")], "fixed": [False, True]}, {}, {"s0": Fraction(1, 10 ** 6), "s1": Fraction(1, 20)}).run(A.strip_docstring(rp.node.body))
         if [str(to_poly(x)) for x in out["sigmas"]] == ["s0", "s1"] and [to_poly(x) for x in out["auxdata"]] == [Poly.const(1)] * 2 and [to_poly(x) for x in out["inits"]] == [Poly.const(1)] * 2 and out["paramset_type"] == "constrained_by_normal" and list(out["fixed"]) == [False, True]:
             ctx.holds(rid, f"{rel}::required_parset", "Gaussian(aux = 1 | gamma, sigma_b), one component per bin")
         else:
